@@ -216,7 +216,12 @@ func saveState(lastMessages map[string]interface{}) {
 	if vcrash("saveState.afterRemoveBak") {
 		return
 	}
-	err = os.Rename(mainname, bakname)
+	// Keep the main file in place while making the backup (hard link, not rename), so that a
+	// complete config file exists at every instant; the rename below replaces it atomically.
+	err = os.Link(mainname, bakname)
+	if err != nil && !os.IsNotExist(err) {
+		err = os.Rename(mainname, bakname) // file system without hard links: move, as before
+	}
 	if err != nil && !os.IsNotExist(err) {
 		log.Println("Could not save backup file: ", err)
 		return
